@@ -107,6 +107,11 @@ def generate(rng, tier):
          [["3", "8"], ["6", "8"], ["4", "7"]]),
         (["cost summary = 40\ncost = 3", "cost + 1\ncost summary * 2\n\ncost summary + cost"], [["40", "3"], ["4", "80", None, "43"]]),
         (["a = 1\nb = a + 1\nb * 10", "a = 1\nb = a + 1\nb * 10", "b"], [["1", "2", "20"], ["1", "2", "20"], ["2"]]),
+        # a name with letters outside ASCII re-bound in another letter case is the same variable of the session
+        (["Ödeme = 5", "ödeme = 6", "ödeme + 1\nÖDEME * 2"], [["5"], ["6"], ["7", "12"]]),
+        (["Gümüş Ücret = 100\ngümüş ücret = 25", "GÜMÜŞ ÜCRET * 5", "Τιμή = 5\nτιμή = 6\nΤΙΜΉ + 1"], [["100", "25"], ["125"], ["5", "6", "7"]]),
+        # texts of shrinking line counts: every line of the NEW text is evaluated exactly once, nothing of the old one
+        (["total = 1\ntotal = total + 50\ntotal", "total", "", "total + 1"], [["1", "51", "51"], ["51"], [None], ["52"]]),
     ]
     for texts, outs in pinned:
         ops = [{"op": "new_session", "sid": 1}, {"op": "set_language", "sid": 1, "lang": "en"}]
